@@ -23,23 +23,23 @@ import (
 
 // extMutators: external functions that write through an argument (index -> true).
 var extMutators = map[string][]int{
-	"sort.Strings":          {0},
-	"sort.Ints":             {0},
-	"sort.Slice":            {0},
-	"sort.SliceStable":      {0},
-	"sort.Sort":             {0},
-	"sort.Stable":           {0},
-	"slices.Sort":           {0},
-	"slices.SortFunc":       {0},
-	"slices.SortStableFunc": {0},
-	"slices.Reverse":        {0},
-	"maps.Copy":             {0},
-	"maps.DeleteFunc":       {0},
-	"golang.org/x/exp/slices.Sort":     {0},
-	"golang.org/x/exp/slices.SortFunc": {0},
-	"golang.org/x/exp/maps.Copy":       {0},
-	"encoding/json.Unmarshal":          {1},
-	"gopkg.in/yaml.v3.Unmarshal":       {1},
+	"sort.Strings":                              {0},
+	"sort.Ints":                                 {0},
+	"sort.Slice":                                {0},
+	"sort.SliceStable":                          {0},
+	"sort.Sort":                                 {0},
+	"sort.Stable":                               {0},
+	"slices.Sort":                               {0},
+	"slices.SortFunc":                           {0},
+	"slices.SortStableFunc":                     {0},
+	"slices.Reverse":                            {0},
+	"maps.Copy":                                 {0},
+	"maps.DeleteFunc":                           {0},
+	"golang.org/x/exp/slices.Sort":              {0},
+	"golang.org/x/exp/slices.SortFunc":          {0},
+	"golang.org/x/exp/maps.Copy":                {0},
+	"encoding/json.Unmarshal":                   {1},
+	"gopkg.in/yaml.v3.Unmarshal":                {1},
 	"github.com/pelletier/go-toml/v2.Unmarshal": {1},
 }
 
